@@ -25,7 +25,9 @@ FAMILIES = {
     "Ops": ("MC_Ops", "MC_Ops.cfg"),
     "Gen": ("MC_Gen", "MC_Gen.cfg"),
     "Interp": ("MC_Interp", "MC_Interp.cfg"),
+    "Fp": ("MC_Fp", "MC_Fp.cfg"),
 }
+FP_SOURCES = ["vh_main.cpp", "vh_fp.cpp"]
 OPS_SOURCES = EXACT_SOURCES + ["vh_ops.cpp"]
 
 
@@ -33,7 +35,7 @@ def build_family(family, variant, cases_path, subset_lines=None):
     """The exact-scalar harness for a family.  Operator expressions are C++
     template instantiations: for the Ops family the generated translation
     units (one struct per AST TLC enumerated) are part of the build."""
-    if family != "Ops":
+    if family not in ("Ops", "Fp"):
         return vlib.build(variant, EXACT_SOURCES)
     import gen_expr
     all_lines = subset_lines if subset_lines is not None else open(cases_path).read().splitlines()
@@ -44,6 +46,8 @@ def build_family(family, variant, cases_path, subset_lines=None):
         files, na, nb = gen_expr.gen(all_lines, gdir, 32)
         open(marker, "w").write("%d %d" % (na, nb))
     files = sorted(os.path.join(gdir, f) for f in os.listdir(gdir) if f.endswith(".cpp"))
+    if family == "Fp":
+        return vlib.build(variant, FP_SOURCES, name="vh_fp", gen_sources=files, libs=["-lquadmath"])
     return vlib.build(variant, OPS_SOURCES, name="vh_ops", gen_sources=files)
 
 
@@ -55,6 +59,12 @@ def nontrivial(c):
     def iv(s):
         return isinstance(s, dict) and s.get("e", 0) - s.get("s", 0) >= 2
 
+    if op in ("FpEval", "FpApply"):
+        return iv(c["a"])
+    if op in ("FpBin", "FpBF", "FpInt"):
+        return iv(c["a"]) and iv(c["b"])
+    if op == "FpGen":
+        return len(c["knots"]) > c["p"] + 1
     if op == "Interp":
         return c["x"]["e"] - c["x"]["s"] >= 3
     if op == "Gen":
@@ -80,7 +90,7 @@ def case_key(c):
     def w(s):
         return (s.get("s"), s.get("e"), s.get("o"), len(s.get("g", []))) if isinstance(s, dict) else None
     return json.dumps([c.get("op"), w(c.get("a")), w(c.get("b")), w(c.get("c")), c.get("share"), c.get("top"), c.get("i"),
-                       c.get("order"), c.get("bcs"), c.get("dflt"), len(c.get("y", [])) if isinstance(c.get("y"), list) else None, c.get("x") if c.get("op") == "Interp" else None, c.get("ast"), c.get("e1"), c.get("e2"), c.get("knots"), c.get("p"), c.get("route"), c.get("grid") if c.get("op") == "Gen" else None, [w(f) for f in c.get("fs", [])] if isinstance(c.get("fs"), list) else None])
+                       c.get("n"), c.get("w"), c.get("order"), c.get("bcs"), c.get("dflt"), len(c.get("y", [])) if isinstance(c.get("y"), list) else None, c.get("x") if c.get("op") == "Interp" else None, c.get("ast"), c.get("e1"), c.get("e2"), c.get("knots"), c.get("p"), c.get("route"), c.get("grid") if c.get("op") == "Gen" else None, [w(f) for f in c.get("fs", [])] if isinstance(c.get("fs"), list) else None])
 
 
 class Ctx:
@@ -135,6 +145,7 @@ def run_and_judge(ctx, family, binp, lines, view, confirm=True):
         ctx.cov["samples"].append({"case": json.loads(lines[len(lines) // 2]), "event": json.loads(events[len(lines) // 2])})
     for e in extra:
         ctx.violations.append(({"op": "exit"}, json.loads(e), "harness process failed at exit"))
+    ctx.last_events = events
     rej = sorted(rejected)
     if not rej:
         return
@@ -377,7 +388,7 @@ def c02(ctx):
 
 
 def c15(ctx):
-    stateless(ctx, "Spl", {"SplUn", "SplBin"}, case_filter=same_grid)
+    stateless(ctx, "Spl", {"SplUn", "SplBin"})
 
 
 def c01(ctx):
@@ -398,6 +409,41 @@ def c06(ctx):
 
 def c07(ctx):
     stateless(ctx, "Ops", {"OpApply", "OpBF"}, case_filter=lambda c: c["tag"] in ("bf", "expr", "prim"))
+
+
+def fp_family(ctx, ops, variants):
+    """Floating-point replay: every variant must satisfy the relation (judged
+    per event by TLC on the verdict the harness computed from the spec's E and
+    S); the values must be bit-identical between the first two variants
+    (self-checks off / on)."""
+    digests = []
+    for v in variants:
+        stateless(ctx, "Fp", ops, variant=v)
+        for e in (json.loads(x) for x in ctx.last_events):
+            for k in ("float", "double", "ldouble"):
+                if k in e and isinstance(e[k], dict):
+                    w = ctx.cov.setdefault("worst_ratio_in_eps_S", {})
+                    w[k] = max(w.get(k, 0.0), e[k].get("worst", 0.0))
+        digests.append([{k: e[k]["digest"] for k in ("float", "double", "ldouble") if k in e and isinstance(e[k], dict)}
+                        for e in (json.loads(x) for x in ctx.last_events)])
+    if len(digests) >= 2:
+        diff = [i for i, (a, b) in enumerate(zip(digests[0], digests[1])) if a != b]
+        ctx.cov["bitwise_compared"] = len(digests[0])
+        for i in diff[:5]:
+            ctx.violations.append(({"op": "SelfChecksChangeValues", "variants": list(variants[:2])}, json.loads(ctx.last_events[i]),
+                                   "%d results differ bitwise between builds %s and %s" % (len(diff), variants[0], variants[1])))
+    ctx.assumptions.append("TLC supplies the exact value E and the magnitude S (abs-mode Level I, an upper bound of the sum of absolute values "
+                           "of the terms); the inequality |F-E| <= 2^20 eps S is evaluated by the harness in __float128")
+
+
+def c16(ctx):
+    quick = ctx.tier == "quick"
+    fp_family(ctx, {"FpGen", "FpEval", "FpBin", "FpApply", "FpBF"}, ("fp", "fp_checks") if quick else ("fp", "fp_checks", "fp_O0", "fp_O3", "fp_clang"))
+
+
+def c17(ctx):
+    quick = ctx.tier == "quick"
+    fp_family(ctx, {"FpInt"}, ("fp",) if quick else ("fp", "fp_checks", "fp_O0", "fp_O3"))
 
 
 def c19(ctx):
@@ -444,6 +490,8 @@ PROPS = {
     "C09": dict(fn=c09, level="model_checking"),
     "C10": dict(fn=c10, level="model_checking"),
     "C14": dict(fn=c14, level="model_checking"),
+    "C16": dict(fn=c16, level="exploration"),
+    "C17": dict(fn=c17, level="exploration"),
     "C19": dict(fn=c19, level="other"),
     "C01": dict(fn=c01, level="model_checking"),
     "C04": dict(fn=c04, level="model_checking"),
